@@ -68,13 +68,29 @@ def build_world(live) -> Tuple[World, Interp, Dict[str, Any]]:
     info: Dict[str, Any] = {"methods": {}, "problems": []}
     load_module(world, interp, os.path.join(REPO, REL), "types", REL)
     world.namespaces.setdefault("functools", {})
+    # sibling modules of the package imported by types.py expose their plain constants (e.g. validators.UINTEGER_MAX_VALUE)
+    import types as _types
+
+    from pyvc.symex import VModule, const_value
+
+    for name, obj in vars(live.types).items():
+        if isinstance(obj, _types.ModuleType) and obj.__name__.startswith("lsprotocol.") and obj is not live.types:
+            mns = {}
+            for k, v in vars(obj).items():
+                if not k.startswith("__") and (v is None or isinstance(v, (bool, int, float, str))):
+                    mns[k] = const_value(v)
+            short = obj.__name__.split(".")[-1]
+            world.namespaces[f"pkg.{short}"] = mns
+            world.namespaces["types"][name] = VModule(f"pkg.{short}")
     for cname, fields in FIELDS.items():
         cls = getattr(live.types, cname, None)
         if cls is None:
             info["problems"].append(f"class {cname} missing")
             continue
         methods: Dict[str, str] = {}
-        for d in DUNDERS:
+        # the dunders the lemmas exercise, plus every other plain function of the class (helpers the dunders may call)
+        extra = [n for k in cls.__mro__ if k is not object for n, v in k.__dict__.items() if inspect.isfunction(v) and n not in DUNDERS and not (n.startswith("__") and n.endswith("__"))]
+        for d in DUNDERS + sorted(set(extra)):
             # first definition along the MRO, excluding object
             fn = None
             for k in cls.__mro__:
